@@ -93,7 +93,7 @@ def parseTy (s : String) : Option Ty :=
   | _ =>
     match parseITy s with
     | some t => some (.int t)
-    | none => if (s.front).isUpper then some (.enum s) else none
+    | none => if (s.front).isUpper then some (.enum s) else none   -- the built-in `T?` is written `Option`
 
 def showITy : ITy → String
   | .u8 => "u8" | .u16 => "u16" | .u32 => "u32" | .u64 => "u64"
